@@ -6,7 +6,7 @@ CLAIMS.update({
         "DESIGN 3, 4/C01",
     ),
     "C02": (
-        "The loop-free step functions Repeated::next/next_cfg and SeparatedBy::next (and the adaptor steps enumerate/map/or_not) are proved for all bounds, counts, flags, child behaviours and input lengths against the statement's case table; the count induction from step contracts to whole repetitions is a Verus lemma; the drivers that merely iterate a step (collect, count, foldl, foldr, Repeated::go, SeparatedBy::go, collect_exactly) are bounded stand-ins (2 items, 3 in the thorough tier); the composition of the real Repeated / configure() with the real collect into a real Vec is checked bounded with bounds of the full usize range (sizing hints and set-up exchanged besides `next`, no panic however large the bound).",
+        "Container::push / with_capacity for Vec<T> verified by Verus on the extracted impl (push appends exactly the item, vectors of every length). The loop-free step functions Repeated::next/next_cfg and SeparatedBy::next (and the adaptor steps enumerate/map/or_not) are proved for all bounds, counts, flags, child behaviours and input lengths against the statement's case table; the count induction from step contracts to whole repetitions is a Verus lemma; the drivers that merely iterate a step (collect, count, foldl, foldr, Repeated::go, SeparatedBy::go, collect_exactly) are bounded stand-ins (2 items, 3 in the thorough tier); the composition of the real Repeated / configure() with the real collect into a real Vec is checked bounded with bounds of the full usize range (sizing hints and set-up exchanged besides `next`, no panic however large the bound).",
         _A + " Items consume input (K-prog).",
         "DESIGN 3.7, 4/C02",
     ),
@@ -71,7 +71,7 @@ CLAIMS.update({
         "DESIGN 4/C14",
     ),
     "C15": (
-        "with_ctx, nested providers (nearest wins, outer back in force afterwards), ignore_with_ctx / then_with_ctx (right parser sees this attempt's left output), map_ctx, configure on just and repeated (matches as the statically configured parser), try_configure errors becoming failures: all proved on the real go / make_iter / next bodies.",
+        "JustCfg::seq verified by Verus on the extracted function. with_ctx, nested providers (nearest wins, outer back in force afterwards), ignore_with_ctx / then_with_ctx (right parser sees this attempt's left output), map_ctx, configure on just and repeated (matches as the statically configured parser), try_configure errors becoming failures: all proved on the real go / make_iter / next bodies.",
         _A,
         "DESIGN 4/C15",
     ),
